@@ -15,7 +15,7 @@ import (
 	"hzcheck/zone"
 )
 
-func init() { register("C08", c08Range, c08Len, c08Refs, c08Lock, c08Head) }
+func init() { register("C08", c08Range, c08Len, c08Refs, c08Reuse, c08Lock, c08Head) }
 
 // C08.range — postcondition of ParseByteRange under contentLength ≥ 0.
 func c08Range(e *Env) {
@@ -557,4 +557,64 @@ func c08Head(e *Env) {
 		return false
 	})
 	r.Check(found, rule, fname+":has-head-branch", w.Pos(hr.Decl.Pos()), "the handler branches on ctx.IsHead() with both arms", "no if/else on ctx.IsHead() found")
+}
+
+// C08.reuse — a reader returned to its free list / pool forgets the range of the last request.
+func c08Reuse(e *Env) {
+	const rule = "C08.reuse"
+	w, r := e.W, e.R
+	r.Explainf("C08.reuse: file readers are recycled (big-file readers on the file's own free list, small-file readers in a sync.Pool). For every type implementing byteRangeUpdater, each receiver field that UpdateByteRange stores to must be stored again on every non-panicking path of the type's Close (go/ssa must-write analysis) — otherwise a reader that last served a Range request serves the next full request through its exhausted limiter / stale offsets.")
+	iface, _ := w.Object("pkg/app", "byteRangeUpdater").(*types.TypeName)
+	if iface == nil {
+		r.Anchor(rule, "app.byteRangeUpdater")
+		return
+	}
+	it, _ := iface.Type().Underlying().(*types.Interface)
+	pkg := w.Pkg("pkg/app")
+	fc := newFieldCov(w)
+	n := 0
+	for _, name := range pkg.Types.Scope().Names() {
+		tn, ok := pkg.Types.Scope().Lookup(name).(*types.TypeName)
+		if !ok || tn == iface || it == nil {
+			continue
+		}
+		if _, isI := tn.Type().Underlying().(*types.Interface); isI || !types.Implements(types.NewPointer(tn.Type()), it) {
+			continue
+		}
+		upd, cl := w.Func("pkg/app", tn.Name(), "UpdateByteRange"), w.Func("pkg/app", tn.Name(), "Close")
+		if upd == nil || cl == nil {
+			r.Fail(rule, tn.Name()+":methods", "-", "range-capable reader has UpdateByteRange and Close", "type "+tn.Name()+" lacks UpdateByteRange or Close")
+			continue
+		}
+		n++
+		ufn, cfn := w.SSAFunc(upd), w.SSAFunc(cl)
+		_, st := structOfPtr(ufn.Params[0].Type())
+		if st == nil {
+			continue
+		}
+		// fields stored by UpdateByteRange (directly, or a sub-field of a value field)
+		al := aliasesOf(ufn, ufn.Params[0])
+		set := map[int]bool{}
+		for _, b := range ufn.Blocks {
+			for _, ins := range b.Instrs {
+				if sto, ok := ins.(*ssa.Store); ok {
+					if i, ok := fieldAddrOf(sto.Addr, al); ok {
+						set[i] = true
+					}
+				}
+			}
+		}
+		must := fc.must(cfn, 0)
+		var names []string
+		for i := range set {
+			names = append(names, st.Field(i).Name())
+		}
+		sort.Strings(names)
+		r.Unit("%s: %s — UpdateByteRange stores %v; Close resets %d fields on every path", rule, tn.Name(), names, len(must))
+		for i := range set {
+			f := st.Field(i)
+			r.Check(must[i], rule, tn.Name()+":"+f.Name(), w.Pos(cl.Decl.Pos()), "field "+tn.Name()+"."+f.Name()+" set by UpdateByteRange is reset by Close on every path", tn.Name()+".Close does not store "+f.Name()+" on every path although UpdateByteRange sets it: a recycled reader keeps the range state of the previous request (e.g. an exhausted LimitedReader → empty body with full Content-Length)")
+		}
+	}
+	r.Floor(rule, n, 2, "range-capable reader types")
 }
